@@ -88,6 +88,31 @@ theorem sortedSet_pairwise (l : List Int) : (sortedSet l).Pairwise (fun a b => l
 theorem sortedSet_nodup (l : List Int) : (sortedSet l).Nodup :=
   pairwise_nodup (by intro a; simp [ltInt]) _ (sortedSet_pairwise l)
 
+theorem sortBy_nodup_int (l : List Int) (h : l.Nodup) : (sortBy ltInt l).Nodup :=
+  pairwise_nodup (by intro a; simp [ltInt]) _ (sortBy_pairwise strictInt l (fun _ _ => trivial) h)
+
+theorem normUnit_nodup (freq lvl interval start : Int) (arg : Option (List Int)) (base : Int)
+    (res : Option (List Int)) (h : normUnit freq lvl interval start arg base = .ok res) :
+    (res.getD []).Nodup := by
+  unfold normUnit at h
+  split at h
+  · injection h with h; subst h
+    split <;> simp
+  · rename_i l
+    split at h
+    · split at h
+      · rename_i c hc
+        injection h with h; subst h
+        unfold constructByset at hc
+        dsimp only at hc
+        split at hc
+        · cases hc
+        · injection hc with hc; subst hc
+          exact sortBy_nodup_int _ (dedup_nodup _ [] List.nodup_nil)
+      · cases h
+    · injection h with h; subst h
+      exact sortedSet_nodup l
+
 /-! ### wall times -/
 
 def ValidHMS (t : HMS) : Prop := 0 ≤ t.1 ∧ t.1 ≤ 23 ∧ 0 ≤ t.2.1 ∧ t.2.1 ≤ 59 ∧ 0 ≤ t.2.2 ∧ t.2.2 ≤ 59
